@@ -14,6 +14,16 @@ TEXT = {
         "note": TB + "Modelled rather than verified: util/ignoreset.go (hand model, differential tie through the public API). Hypothesis: scoped ranges start at >= 1.",
         "technique": "Lean 4 refinement proof (representation invariant by induction over the op history) + exhaustive/seeded differential correspondence",
     },
+    "C19": {
+        "level": "Theorems for every byte string, every display limit M >= 4 (instantiated at the regenerated MaxLineLength) and every column: "
+                 "caret_under_char (the byte under the caret is the byte at the reported column, in all three truncation regimes), "
+                 "truncate_len_le (<= M+3), truncate_short, caret_prefix_len/_tabs (tab-for-tab prefix), window_sound/_complete/_has_reported_line "
+                 "(excerpt lines are the numbered source lines L-2..L+1 clamped), truncateG_total (no slice expression can be out of range), "
+                 "no_excerpt (unreadable / short file => header only). The model's whole message is compared byte for byte with "
+                 "Reporter.ReportViolation over the length x column x byte-pattern x file-shape grid.",
+        "note": TB + "Modelled rather than verified: reporter.go (hand model, byte-exact differential tie). Byte columns, not visual columns.",
+        "technique": "Lean 4 proofs (index arithmetic over List UInt8, case split on the three truncation regimes) + byte-exact differential correspondence on a boundary grid",
+    },
 }
 
 # properties not (yet) claimed, with the reason; anything claimed in registry.PROPS is dropped from this list automatically
